@@ -727,6 +727,74 @@ def r09h(ctx):
                            f" — with several occurrences in the chosen text node a mark asked for at position {'-1' if neg else 'k'} is placed on another occurrence than the one addressed")
 
 
+def r09i(ctx):
+    """lxml's remove() takes the tail along — only Element.delete may call it.
+
+    In lxml the text that follows an element belongs to that element (`.tail`); `parent.remove(node)` drops it with the node.
+    Element.delete() is the one place that knows: it moves the tail to the previous sibling or to the parent's text first (R09c).  Any
+    other direct `remove()` of a node of the tree loses the text after the markup that is being removed.  Rule (one site expected): in the
+    element modules, a call `<x>.remove(<y>)` on lxml nodes occurs only inside Element.delete; removing from plain Python lists is not
+    concerned (receiver known to be a list / the result of list()).
+    """
+    repo = ctx.repo
+    ctx.rule("R09i", "raw lxml remove() (which drops the tail text with the node) is called only by Element.delete", floor=1)
+    n_ok = 0
+    for f in repo.all_funcs():
+        if "/scripts/" in f.file:
+            continue
+        listy = {a.targets[0].id for a in walk_no_nested(f.node) if isinstance(a, ast.Assign) and len(a.targets) == 1 and isinstance(a.targets[0], ast.Name)
+                 and (isinstance(a.value, (ast.List, ast.ListComp)) or isinstance(a.value, ast.Call) and call_name(a.value) in ("list", "sorted"))}
+        for c in walk_no_nested(f.node):
+            if not (isinstance(c, ast.Call) and isinstance(c.func, ast.Attribute) and c.func.attr == "remove" and len(c.args) == 1):
+                continue
+            recv = c.func.value
+            if isinstance(recv, ast.Name) and recv.id in listy:
+                continue
+            lxmlish = any(isinstance(x, ast.Attribute) and x.attr.endswith("__element") for x in ast.walk(c)) or \
+                any(isinstance(x, ast.Call) and call_name(x) in ("getparent", "getroot") for x in ast.walk(recv)) or \
+                (isinstance(recv, ast.Name) and any(isinstance(a, ast.Assign) and any(isinstance(t, ast.Name) and t.id == recv.id for t in a.targets)
+                                                     and any(isinstance(x, ast.Call) and call_name(x) in ("getparent", "getroot") or isinstance(x, ast.Attribute) and x.attr.endswith("__element")
+                                                             for x in ast.walk(a.value)) for a in walk_no_nested(f.node)))
+            if not lxmlish:
+                continue
+            ok = f.ident == "Element.delete"
+            n_ok += ok
+            ctx.instance("R09i", f"{f.file}:{f.ident}", f"`{norm(c, 40)}`: " + ("inside Element.delete, after the tail was moved" if ok else "outside Element.delete"), ok=ok, nontrivial=True, line=c.lineno)
+            if not ok:
+                ctx.report("R09i", f, c, norm(c, 60),
+                           f"{f.ident} removes a node of the tree with lxml's remove(): the text that follows the node (its tail) is dropped with it — removing an empty span or link "
+                           f"deletes the words after it; Element.delete() moves the tail first")
+    if n_ok == 0:
+        raise AnalysisError("R09i: Element.delete no longer removes through lxml (anchor lost)")
+
+
+def r09j(ctx):
+    """The text an offset or an occurrence counts is the text XPath selects.
+
+    `_insert` addresses positions in the list of text nodes produced by one of four module-level compiled queries (`…text()`, with or
+    without the annotation filter).  In lxml a text node that is a *tail* answers `getparent()` with the element it trails, not the element
+    it is a child of: hand-written filtering by climbing parents rejects the text after a note together with the note.  Rule: every
+    `_xpath_text*` name of element.py is bound at module level to `xpath_compile(<constant selecting text()>)` — not to a function.
+    """
+    repo = ctx.repo
+    ctx.rule("R09j", "the text-node selectors used by _insert are compiled XPath constants selecting text()", floor=2)
+    m = repo.module("element")
+    used = sorted({x.id for f in m.all_funcs for x in walk_no_nested(f.node) if isinstance(x, ast.Name) and x.id.startswith("_xpath_text")})
+    if not used:
+        raise AnalysisError("R09j: no _xpath_text* selector is used in element.py")
+    fdefs = {g.name: g for g in m.all_funcs if g.cls is None}
+    for nm in used:
+        node = m.assigns.get(nm)
+        expr = repo.fold(node.args[0], m) if isinstance(node, ast.Call) and call_name(node) in ("xpath_compile", "XPath") and node.args else None
+        ok = isinstance(expr, str) and "text()" in expr
+        ctx.instance("R09j", f"{m.relpath}:{nm}", f"compiled query {expr!r}" if ok else "not a compiled text() query", ok=ok, nontrivial=True, line=getattr(node, "lineno", 1))
+        if not ok:
+            g = fdefs.get(nm)
+            ctx.report("R09j", g if g is not None else m, g.node if g is not None else m.tree, f"{nm} is " + ("a Python function" if g is not None else "not a compiled XPath"),
+                       f"{nm}, the selector of the text nodes that offsets and occurrence numbers count, is no longer a compiled `text()` query: a filter written by hand over "
+                       f"getparent() takes the text that follows a note or an annotation (its tail) for part of it, so marks addressed after it are not found or land on an earlier match")
+
+
 def run(ctx):
     r09a(ctx)
     r09b(ctx)
@@ -736,6 +804,8 @@ def run(ctx):
     r09f(ctx)
     r09g(ctx)
     r09h(ctx)
+    r09i(ctx)
+    r09j(ctx)
     # strip_tags and the span builders re-attach every text piece through Element.append: a substitution there that touches more than U+0020 rewrites text
     # that lies outside the markup being inserted or removed (part of a rule shared with C16)
     from .c16 import r16i
@@ -748,6 +818,9 @@ from ..selftest import Seed, unparse_seed  # noqa: E402
 _P = "src/odfdo/paragraph.py"
 _EL = "src/odfdo/element.py"
 SEEDS = [
+    Seed("strip_elements detaches a lone empty element with lxml remove()", "fault", _EL,
+         "    def strip_elements(\n        self,\n        sub_elements: Element | Iterable[Element],\n    ) -> Element | list:",
+         "    def _drop_lone(self, lone_element: Element) -> None:\n        lone = lone_element.__element\n        holder = lone.getparent()\n        holder.remove(lone)\n\n    def strip_elements(\n        self,\n        sub_elements: Element | Iterable[Element],\n    ) -> Element | list:", "R09i"),
     Seed("negative position takes the first match of the last matching node", "fault", _EL,
          "        text = None\n        for a_text in xpath_result:\n            if regex.search(str(a_text)) is not None:\n                text = a_text\n        if text is None:\n            raise ValueError(f\"Text not found: '{xpath_result}'\")\n        if not isinstance(text, str):\n            raise TypeError(f\"Text not found or text not of type str: '{text}'\")\n        return text, list(regex.finditer(text))[-1]",
          "        for text in reversed(xpath_result):\n            sre = regex.search(str(text))\n            if sre is not None:\n                break\n        else:\n            raise ValueError(f\"Text not found: '{xpath_result}'\")\n        if not isinstance(text, str):\n            raise TypeError(f\"Text not found or text not of type str: '{text}'\")\n        return text, sre", "R09h"),
